@@ -57,6 +57,8 @@ def run(ctx):
     ctx.rule("R3", "exact-rescale chain of the Maxwell-Boltzmann draw")
     ctx.rule("R4", "padding atoms stay at rest (ZeroOnPad abstract interpretation of every in-place velocity update)")
     ctx.rule("R5", "centre-of-mass handling: validated mode, momentum expressions, kinetic energy restored in periodic removal")
+    ctx.rule("R6", "degrees of freedom count real atoms (num_atoms, not the padded molsize); overrides forward their arguments to the parent implementation")
+    _r6_dof_and_forwarding(ctx, repo)
 
     # ---------------------------------------------------------------- R1
     iv = md.func("Molecular_Dynamics_Basic.initialize_velocity")
@@ -366,3 +368,90 @@ def check_zero_com(ctx, md, rid):
     dflt = {a.arg: norm(d) for a, d in zip(zc.args.args[-len(zc.args.defaults):], zc.args.defaults)}
     ctx.check(dflt.get("restore_kinetic_energy") == "True", rid, md, zc, "Molecular_Dynamics_Basic._zero_com", "defaults",
               "restore_kinetic_energy defaults to True", f"_zero_com defaults are {dflt}")
+
+
+def _r6_dof_and_forwarding(ctx, repo):
+    md = repo.mod(MD)
+    nad = repo.mod(NAD)
+    # (a) every set_dof computes n_dof from the number of real atoms of each molecule
+    n = 0
+    for m in (md, nad):
+        for q, f in m.functions.items():
+            if q.split(".")[-1] != "set_dof":
+                continue
+            for st in ast.walk(f):
+                if isinstance(st, ast.Assign) and norm(st.targets[0]) == "self.n_dof":
+                    n += 1
+                    atoms = [x for x in ast.walk(st.value) if isinstance(x, ast.Attribute) and isinstance(x.value, ast.Name) and x.value.id in ("molecule", "mol")]
+                    ok = any(a.attr == "num_atoms" for a in atoms) and not any(a.attr in ("molsize",) for a in atoms)
+                    three = any(isinstance(x, ast.Constant) and x.value in (3, 3.0) for x in ast.walk(st.value))
+                    ctx.check(ok and three, "R6", m, st, q, st, f"{q}: n_dof = 3 x (real atoms of each molecule) - constraints",
+                              f"{q}: n_dof = `{norm(st.value)}` does not count the real atoms of each molecule (molecule.num_atoms): in a padded batch the smaller molecules are drawn "
+                              f"and thermostatted with the degrees of freedom of the largest one (they start too hot while the reported temperature looks right)")
+    if n < 2:
+        raise AnalysisError("set_dof definitions not found")
+    # num_atoms itself counts species > 0 per molecule
+    mm = repo.mod("seqm/Molecule.py")
+    na = [st for st in ast.walk(mm.tree) if isinstance(st, ast.Assign) and any(norm(t) == "self.num_atoms" for t in st.targets)]
+    def _counts_real(st):
+        # torch.sum(<species > 0>, dim=1) possibly through one local mask
+        txt = norm(st.value)
+        fn = mm.enclosing_function(st)
+        loc = {}
+        if fn is not None:
+            for s2 in ast.walk(fn):
+                if isinstance(s2, ast.Assign) and len(s2.targets) == 1 and isinstance(s2.targets[0], ast.Name):
+                    loc[s2.targets[0].id] = norm(s2.value)
+        for nm_, v_ in loc.items():
+            if nm_ in txt:
+                txt += " " + v_
+        return "sum" in txt and "species" in txt and ("> 0" in txt or "!= 0" in txt) and "dim=1" in txt
+    ctx.check(len(na) >= 1 and all(_counts_real(st) for st in na), "R6", mm, na[0] if na else mm.tree, "Molecule", "num_atoms",
+              "num_atoms = number of species > 0 per molecule", f"num_atoms = {[norm(st.value) for st in na]}")
+    # (b) super-call forwarding: an override that calls super().<same method>(...) hands on every parameter it shares with the parent signature
+    CONSUMED = {
+        # (class.method, parameter) -> why the override does not forward it
+    }
+    k = 0
+    for m in (md, nad):
+        for cname, cls in m.classes.items():
+            for st in cls.body:
+                if not isinstance(st, ast.FunctionDef):
+                    continue
+                own = [a.arg for a in st.args.args if a.arg not in ("self", "cls")] + [a.arg for a in st.args.kwonlyargs]
+                for c in calls_in(st):
+                    if not (isinstance(c.func, ast.Attribute) and isinstance(c.func.value, ast.Call) and norm(c.func.value.func) == "super" and c.func.attr == st.name):
+                        continue
+                    # parent definition
+                    parent = None
+                    seen_self = False
+                    for pm, pc in repo.mro(m, cls):
+                        if pc is cls:
+                            seen_self = True
+                            continue
+                        if seen_self:
+                            hit = [x for x in pc.body if isinstance(x, ast.FunctionDef) and x.name == st.name]
+                            if hit:
+                                parent = hit[0]
+                                break
+                    if parent is None:
+                        continue
+                    pparams = [a.arg for a in parent.args.args if a.arg not in ("self", "cls")] + [a.arg for a in parent.args.kwonlyargs]
+                    shared = [p_ for p_ in own if p_ in pparams]
+                    passed_kw = {kw.arg for kw in c.keywords if kw.arg}
+                    passed_pos = set()
+                    for i, a in enumerate(c.args):
+                        if isinstance(a, ast.Starred):
+                            continue
+                        if i < len([x for x in parent.args.args if x.arg not in ("self", "cls")]):
+                            passed_pos.add([x.arg for x in parent.args.args if x.arg not in ("self", "cls")][i])
+                    for p_ in shared:
+                        k += 1
+                        if (f"{cname}.{st.name}", p_) in CONSUMED:
+                            continue
+                        ctx.check(p_ in passed_kw or p_ in passed_pos, "R6", m, c, f"{cname}.{st.name}", f"super().{st.name}(... {p_} ...)",
+                                  f"{cname}.{st.name} forwards `{p_}` to the parent implementation",
+                                  f"{cname}.{st.name} accepts `{p_}` but its super().{st.name}(...) call does not pass it on: the parent runs with its default "
+                                  f"(e.g. remove_com=None: no centre-of-mass removal and no reduction of the degrees of freedom for this engine)")
+    if k < 10:
+        raise AnalysisError(f"only {k} forwarded parameters inventoried")
